@@ -818,7 +818,9 @@ func (e *endpoint) registerWithStack(nicid tcpip.NICID, netProtos []tcpip.Networ
 
 	err := e.stack.RegisterTransportEndpoint(nicid, netProtos, ProtocolNumber, id, e)
 	if err != nil {
-		e.stack.ReleasePort(netProtos, ProtocolNumber, id.LocalAddress, id.LocalPort)
+		if e.id.LocalPort == 0 {
+			e.stack.ReleasePort(netProtos, ProtocolNumber, id.LocalAddress, id.LocalPort)
+		}
 	} else if e.id.LocalPort == 0 {
 		e.reservedNetProtos, e.reservedAddr, e.reservedPort = netProtos, id.LocalAddress, id.LocalPort
 	}
